@@ -85,6 +85,11 @@ def generate(rng, tier):
     style = rng.choice(["git", "git", "plain"])
     prefix_a = {0: "", 1: "a/", 2: "a/w/", 3: "x/y/z/"}[p]
     prefix_b = {0: "", 1: "b/", 2: "b/w/", 3: "q/y/z/"}[p]
+    # `diff -u /abs/old/f.rs /abs/new/f.rs`: absolute paths, whose leading slash closes an (empty) first component
+    abs_style = style == "plain" and rng.chance(25)
+    if abs_style:
+        prefix_a = "/" + "".join(c + "/" for c in ["o", "y", "z"][: max(0, p - 1)])
+        prefix_b = "/" + "".join(c + "/" for c in ["q", "y", "z"][: max(0, p - 1)])
     nfiles = rng.range(1, 4)
     names = rng.sample(["src/lib.rs", "src/main.rs", "src/a/mod.rs", "src/a/deep/x.rs", "README.md", "build.rs", "src/data.txt",
                         "tests/t.rs", "src/gen.rs.in", "Cargo.toml"], nfiles)
@@ -115,6 +120,8 @@ def generate(rng, tier):
         post = "/dev/null" if new is None else prefix_b + new_name
         lines.append("+++ " + post + ts)
         stripped = new_name if new is not None else None
+        if abs_style and p == 0 and new is not None:
+            stripped = "/" + new_name
         if new is None:
             # what the tool sees after stripping p components of /dev/null -- never matches a sensible filter
             stripped = None
